@@ -12,7 +12,7 @@ from ..interp import Obj, Sym, Term, View, Cell, Arr, Lin, NoReturn, Infeasible,
 from ..build import AnalysisBroken
 from ..lib_c10 import (PPInterp, Toks, register_nested_enums, explore_directive, outcome, calls, is_resync,
                        idx_of, truth_in, settle, m_equal, m_strndup, hook, cut_tok, resync, set_out,
-                       string_lits_compared, RESUME, directive_scenario, pp2_config, spelled_from, TABLE_LOOKUPS, h_find_macro,
+                       string_lits_compared, RESUME, directive_scenario, mark_replaced, pp2_config, spelled_from, TABLE_LOOKUPS, h_find_macro,
                        h_table_lookup, key_base, file_key_functions)
 
 U = 'preprocess.c'
@@ -56,7 +56,7 @@ def run(P, rep, tier):
                        'by define_macro (R10.11).')
     rep.assumptions += ['the rest of the token stream after the analysed directive is arbitrary (cut at skip_line/skip_cond_incl/eval_const_expr/...)',
                         'tokens produced by the tokenizer are newline-terminated lists ending in TK_EOF with at_bol set',
-                        'equal(tok, s) compares the spelling of tok with s', 'calloc succeeds',
+                        'equal(tok, s) compares the spelling of tok with s', 'calloc succeeds', 'the first token of a macro expansion carries the at_bol flag of the macro name (C09 R09.18); every later token of an expansion may carry any flag',
                         'the successor of the TK_EOF token that ends a token list is NULL (tokenize/new_eof allocate it zeroed)',
                         'the values of -include options are non-NULL strings (parse_args stores argv words)',
                         'reference for -include lookup and for the order of the fixed system directories: gcc (working directory first, then the include path; '
@@ -93,10 +93,12 @@ def run(P, rep, tier):
     guarded('R10.7', _r107_search_sites, P, u, rep)
     guarded('R10.7', _r107_quoted_site, P, u, T, rep)
     null_first = guarded('R10.8', r108, P, u, T, rep, dres)
+    guarded('R10.16', _r1016_computed_include, P, u, T, rep)
     guarded('R10.10', r1010_joiners, P, rep, bool(null_first))
     guarded('R10.11', r1011_define_option, P, rep)
     guarded('R10.6', r106, P, rep)
     guarded('R10.9', r109_macro_table_order, P, rep)
+    guarded('R10.15', r1015_directive_source, P, u, T, rep)
     guarded('R10.12', r1012_if_arithmetic, P, rep, tier)
     guarded('R10.14', r1014_tables, P, rep)
 
@@ -430,6 +432,8 @@ def _guard_scenario(T, d, variant=None):
         specs += T.line('e', [('#', 'TK_PUNCT'), ('endif', 'TK_IDENT')])
         specs += [('eof', '', 'TK_EOF', True)]
         ts = T.chain(specs)
+        if variant == 'replaced':
+            mark_replaced(ts[6])
         ctx.toks = ts
         ctx.tokidx = {id(t): i for i, t in enumerate(ts)}
         return [ts[0]]
@@ -668,7 +672,7 @@ DIRECTIVE_ACTIONS = ('push_cond_incl', 'eval_const_expr', 'find_macro', 'skip_co
                      'search_include_next', 'read_macro_definition', 'read_line_marker', 'undef_macro', 'hashmap_put', 'hashmap_put2')
 
 
-def _r102_null_directive(P, u, T, rep, universe):
+def _r102_null_directive(P, u, T, rep, universe, variant='nextline', rule='R10.2'):
     """`#` alone on its line is a null directive and has no effect (C11 6.10.7); a directive is `# name ... new-line`, so the first word of the NEXT line is
     never a directive name.  The dispatcher is run on `#` / `d M` / `x y` for every word d it knows (and a pp-number, the `# 33 "file"` line marker form):
     the only admissible transition is to resume at `d`, without an error, without touching the conditional stack and without any directive action."""
@@ -677,9 +681,9 @@ def _r102_null_directive(P, u, T, rep, universe):
     for d, kind in words:
         name = d if kind == 'TK_IDENT' else 'pp-number'
         try:
-            it, res = explore_directive(P, u, T, d, variant='nextline', kind=kind)
+            it, res = explore_directive(P, u, T, d, variant=variant, kind=kind)
         except Unsupported as e:
-            rep.undecided('R10.2', '%s:preprocess2:nextline/%s' % (U, name), 'cannot interpret the dispatcher: %s' % e)
+            rep.undecided(rule, '%s:preprocess2:%s/%s' % (U, variant, name), 'cannot interpret the dispatcher: %s' % e)
             continue
         bad = None
         good = 0
@@ -707,11 +711,15 @@ def _r102_null_directive(P, u, T, rep, universe):
                 why = 'it resumes at %s' % ('token %d of the scenario (text dropped or processed twice)' % i if i is not None else _line_start_ok(ctx, t)[1])
             bad = bad or (ctx, why)
         if bad is None and good == 0:
-            rep.undecided('R10.2', '%s:preprocess2:nextline/%s' % (U, name), 'the dispatcher has no path the analysis can follow on a null directive followed by a line beginning with `%s`' % d)
+            rep.undecided(rule, '%s:preprocess2:%s/%s' % (U, variant, name), 'the dispatcher has no path the analysis can follow on a null directive followed by a line beginning with `%s`' % d)
             continue
-        rep.ob('R10.2', '%s:preprocess2:%s/%s' % (U, 'non-directive-nextline-passed' if bad is None else 'non-directive-nextline-taken-for-directive', name), bad is None,
-               'after a `#` that stands alone on its line (a null directive) the dispatcher takes the first word of the next line, `%s`, for the name of that directive: %s; '
-               'the directive name must be on the same line as the `#` and the next line is ordinary text' % (d, bad[1] if bad else ''),
+        if variant == 'replaced':
+            msg = ('the dispatcher takes a `#` that begins a line but is the result of macro replacement (`#define HASH #` / `HASH %s M`) for the start of the directive `#%s`: %s; '
+                   'C11 6.10.3.4p3: the replaced sequence is not processed as a directive even if it resembles one (it is ordinary text)' % (d, d, bad[1] if bad else ''))
+        else:
+            msg = ('after a `#` that stands alone on its line (a null directive) the dispatcher takes the first word of the next line, `%s`, for the name of that directive: %s; '
+                   'the directive name must be on the same line as the `#` and the next line is ordinary text' % (d, bad[1] if bad else ''))
+        rep.ob(rule, '%s:preprocess2:%s/%s' % (U, 'non-directive-%s-passed' % variant if bad is None else 'non-directive-%s-taken-for-directive' % variant, name), bad is None, msg,
                where='%s:%d' % (U, _arm_line(bad[0], fnline) if bad else fnline), facts={'path': bad[0].trail if bad else None})
 
 
@@ -2576,6 +2584,106 @@ def r108(P, u, T, rep, dres):
     return _r108_cc1(P, rep)
 
 
+def _r1016_computed_include(P, u, T, rep):
+    """`#include MACRO` (C11 6.10.2p4): the tokens after `include` are macro-replaced and the result must match one of the two forms.  All tokens of the
+    expansion belong to the line of the directive, however they were made: a token made by ##, by # or by a dynamic handler (__LINE__, __COUNTER__ ...)
+    comes out of a fresh tokenize() and claims to begin a line, the first one inherits the flag of the macro name.  read_include_filename is run on an
+    identifier; the expansion handed back by preprocess2 is a well-formed `< a / b . h >` (or `"foo.h"`) list ended by the TK_EOF copy_line appended,
+    with at_bol of every token of the expansion after the first UNKNOWN (the first inherits the flag of the macro name: not set).  No setting of the flags may make it reject the name, cut it short or report the other form."""
+    fn = 'read_include_filename'
+    rep.rule('R10.16', 'a computed #include (`#include MACRO`) resolves to the name its complete macro expansion spells: read_include_filename expands the copy of '
+             'the directive\'s own line and then accepts `<...>` / `"..."` whatever the line-start flags of the tokens of the expansion are (tokens made by '
+             'pasting, stringizing or a dynamic macro claim to begin a line) - the scan for `>` ends only at the end of the expanded line', floor=2)
+    if fn not in u.functions:
+        rep.undecided('R10.16', '%s:%s:vanished' % (U, fn), 'read_include_filename vanished')
+        return
+    where = '%s:%d' % (U, u.fn(fn).line)
+    forms = {
+        'angle': [('<', 'TK_PUNCT'), ('a', 'TK_IDENT'), ('/', 'TK_PUNCT'), ('7', 'TK_PP_NUM'), ('.', 'TK_PUNCT'), ('h', 'TK_IDENT'), ('>', 'TK_PUNCT')],
+        'quoted': [('"foo.h"', 'TK_STR')],
+    }
+    for form, words in forms.items():
+        def h_pp2(it, ctx, n, args, words=words):
+            specs = T.line('e', words, first_bol=False) + [('e:eof', '', 'TK_EOF', True)]
+            ts = T.chain(specs, tail=0)
+            for k, t in enumerate(ts[:-1]):
+                if k:
+                    del t.fields['at_bol']      # unknown: decided by how the token was made (the first one inherits the flag of the macro name, which follows `include`)
+                t.fields['origin'] = Obj('Token', lazy=True, label='macro-name')
+            ctx.exp = ts
+            for i, t in enumerate(ts):
+                ctx.tokidx[id(t)] = 100 + i
+            ctx.emit('call', 'preprocess2', args, n.line, ts[0], ts[0])
+            return ts[0]
+        it = PPInterp(P, u, {'models': {'equal': m_equal}, 'cut': {'skip_line': cut_tok('skip_line'), 'join_tokens': None, 'strndup': None,
+                                                                   'preprocess2': h_pp2, 'copy_line': cut_tok('copy_line', rest_arg=0, tok_arg=1)},
+                             'lazy_field': hook, 'loop_limit': 12})
+
+        def mk(ctx):
+            specs = T.line('f', [('FOO', 'TK_IDENT')], first_bol=False) + T.line('b', [('x', 'TK_IDENT'), ('y', 'TK_IDENT')])
+            ts = T.chain(specs)
+            ctx.toks = ts
+            ctx.tokidx = {id(t): i for i, t in enumerate(ts)}
+            ctx.rest = _ValPlace(None)
+            ctx.dq = _ValPlace(None)
+            return [_Ref(ctx.rest), ts[0], _Ref(ctx.dq)]
+        bad = {}
+        n = 0
+        try:
+            res = it.explore(fn, mk, max_paths=600)
+        except Unsupported as e:
+            rep.undecided('R10.16', '%s:%s:computed-%s-form' % (U, fn, form), 'cannot interpret read_include_filename on an identifier: %s' % e, where=where)
+            continue
+        for ctx, out in res:
+            o = outcome(out)
+            pp = calls(ctx, 'preprocess2')
+            cl = calls(ctx, 'copy_line')
+            if not pp:
+                if o[0] == 'error':
+                    bad.setdefault('not-expanded', ('an identifier after #include is rejected without being macro-expanded (%s)' % (o[1],), ctx.trail))
+                else:
+                    bad.setdefault('not-expanded', ('an identifier after #include is not macro-expanded', ctx.trail))
+                continue
+            a = pp[0][2][0] if pp[0][2] else None
+            if not (len(cl) == 1 and is_resync(a) and a.meta['resync'] == 'copy_line' and idx_of(ctx, a.meta.get('from')) == 0):
+                bad.setdefault('expands-other-than-own-line', ('what is macro-expanded is not the copy of the directive\'s own line starting at the identifier', ctx.trail))
+                continue
+            flags = ', '.join('`%s` %s' % (t.meta.get('text'), 'begins a line' if truth_in(it, ctx, t.fields['at_bol']) else 'does not')
+                              for t in ctx.exp[:-1] if 'at_bol' in t.fields and truth_in(it, ctx, t.fields['at_bol']) is not None
+                              and not any(e[0] == 'fstore' and e[1] is t and e[2] == 'at_bol' for e in ctx.events))
+            if o[0] != 'ret':
+                bad.setdefault('rejected', ('the well-formed expansion %s of a computed include is rejected by %s() when the tokens of the expansion carry these line-start flags: %s '
+                                            '(a token made by ##, # or a dynamic macro such as __COUNTER__ comes out of tokenize() with the flag set: `#define H <d/__COUNTER__.h>` / `#include H` fails)'
+                                            % (' '.join(w for w, _ in words), o[1], flags or 'as left by the expansion'), ctx.trail))
+                continue
+            n += 1
+            dq = truth_in(it, ctx, ctx.dq.v) if ctx.dq.v is not None else None
+            if dq is None or dq != (form == 'quoted'):
+                bad.setdefault('wrong-form', ('the %s form produced by macro expansion is reported as %s' % (form, 'quoted' if dq else ('not quoted' if dq is False else 'undetermined')), ctx.trail))
+            r = settle(it, ctx.rest.v)
+            if not (is_resync(r) and r.meta['resync'] == 'copy_line'):
+                bad.setdefault('rest', ('after a computed include the dispatcher is not handed the line start copy_line found (the next line is lost or the directive line is processed as text)', ctx.trail))
+            if form == 'angle':
+                j = calls(ctx, 'join_tokens')
+                if len(j) != 1 or len(j[0][2]) != 2 or idx_of(ctx, j[0][2][0]) != 101 or idx_of(ctx, j[0][2][1]) != 100 + len(words) - 1 or o[1] is not j[0][4]:
+                    bad.setdefault('name-cut', ('the name of a computed angle-bracket include is not the spelling of all tokens between `<` and `>` of the expansion (flags: %s)' % flags, ctx.trail))
+            else:
+                sd = calls(ctx, 'strndup')
+                ok = len(sd) == 1 and len(sd[0][2]) == 2 and o[1] is sd[0][4]
+                if ok:
+                    t0 = ctx.exp[0]
+                    ok = _lin_diff(sd[0][2][0], t0.fields.get('loc')) == 1 and _lin_diff(sd[0][2][1], t0.fields.get('len')) == -2
+                if not ok:
+                    bad.setdefault('name-cut', ('the name of a computed quoted include is not the spelling of the string token of the expansion without its quotes', ctx.trail))
+        if n == 0 and not bad:
+            rep.undecided('R10.16', '%s:%s:computed-%s-form' % (U, fn, form), 'no returning path of read_include_filename for an identifier expanding to the %s form' % form, where=where)
+            continue
+        if not bad:
+            rep.ob('R10.16', '%s:%s:computed-%s-form' % (U, fn, form), True, '', where=where)
+        for k, (msg, trail) in sorted(bad.items()):
+            rep.ob('R10.16', '%s:%s:computed-%s-form/%s' % (U, fn, form, k), False, msg, where=where, facts={'path': trail})
+
+
 def _format_args(ctx, v):
     if isinstance(v, Term) and v.op == 'format':
         return list(v.args)
@@ -3752,6 +3860,80 @@ def r1014_tables(P, rep):
         total += reissue(rep, 'R10.14', sub, why)
     if total == 0:
         rep.undecided('R10.14', 'R17/none', 'C17 issued no obligation about the hash table')
+
+
+# ------------------------------------------------------------------------------------------------ R10.15
+def r1015_directive_source(P, u, T, rep):
+    """The text selected is what the directives of the SOURCE select.  A `#` that is the result of macro replacement never starts a directive, even when it lands
+    first on a line (C11 6.10.3.4p3): `#define HASH #` / `HASH define FLAG 1`, `HASH include "x.h"`, `HASH else` are ordinary text.  (1) C09's directive-source
+    rule on the dispatcher (every path of preprocess2 that takes a `#` out of the stream has found a member expand_macro sets on every replacement token null)
+    is a clause of this property too and is re-issued.  (2) Each of the four scanners that decide where directives are (the dispatcher, both group skippers, the
+    include-guard recogniser) is run on `# d M` whose `#` begins a line and carries the mark of a replacement token: it must behave as on an ordinary line."""
+    rep.rule('R10.15', 'the text selected is what the directives of the source select: a `#` produced by macro replacement is never the start of a directive, even first on a '
+             'line (C11 6.10.3.4p3) - the dispatcher (C09 R09.16 re-issued, and per directive word), skip_cond_incl, skip_cond_incl2 and detect_include_guard treat '
+             '`# d M` with a replaced `#` as an ordinary line', floor=20)
+    from ..report import Report, reissue
+    from . import c09
+    sub = Report('C09')
+    try:
+        eit, epaths = c09.explore_expand(P, u, with_empty=True)
+        c09.r_directive_source(P, u, sub, eit, epaths)
+        n = reissue(rep, 'R10.15', sub, 'text produced by macro replacement is executed as a directive (#define/#include take effect, #else/#endif end a group), so other groups are '
+                                       'selected and other files included than the directives of the source select: ')
+    except (AnalysisBroken, Unsupported, Infeasible) as e:
+        rep.undecided('R10.15', 'R09.16/analysis', 'the directive-source analysis of C09 could not proceed: %s' % e)
+        n = 1
+    if n == 0:
+        rep.undecided('R10.15', 'R09.16/none', 'C09 issued no obligation about the source of directives')
+    # the scenario tokens carry the mark of a replacement token in `origin`: that this is the member expand_macro sets on every token of a replacement is
+    # what the re-issued rule establishes (it names the members); without it the scenarios below say nothing
+    fields = [f for f, _, _ in (u.records.get('Token') or [])]
+    sets_origin = any(n.kind == 'BinaryOperator' and n.opcode == '=' and n.inner and n.inner[0].strip().kind == 'MemberExpr' and n.inner[0].strip().name == 'origin'
+                      for f in u.functions.values() for n in f.walk())
+    if 'origin' not in fields or not sets_origin:
+        rep.undecided('R10.15', '%s:Token:replacement-mark' % U, 'Token.origin (the member expand_macro leaves on every token of a replacement) vanished or is never assigned: the scanners '
+                      'cannot be run on a replaced `#`')
+        return
+    lits = set()
+    for f in ('skip_cond_incl', 'skip_cond_incl2', 'detect_include_guard', 'preprocess2'):
+        lits |= string_lits_compared(u.fn(f))
+    universe = list(COND) + sorted(x for x in lits if x not in COND and x != '#') + ['no_such_directive']
+    _r102_null_directive(P, u, T, rep, universe, variant='replaced', rule='R10.15')
+    says = {'nest': 'treats it as the opener of a nested conditional', 'close': 'treats it as the end of the nested conditional',
+            'stop': 'stops at it as the end of the skipped group'}
+    for fn in ('skip_cond_incl2', 'skip_cond_incl'):
+        where = '%s:%d' % (U, u.fn(fn).line)
+        for d in COND:
+            try:
+                cls, _ = _scanner_class(P, u, T, fn, d, 'replaced')
+            except Unsupported as e:
+                rep.undecided('R10.15', '%s:%s:replaced/%s' % (U, fn, d), 'cannot interpret %s: %s' % (fn, e))
+                continue
+            if not cls:
+                rep.undecided('R10.15', '%s:%s:replaced/%s' % (U, fn, d), '%s has no path the analysis can follow' % fn)
+                continue
+            ok = cls == {'pass'}
+            got = sorted(cls - {'pass'})[0] if not ok else 'pass'
+            rep.ob('R10.15', '%s:%s:%s/%s' % (U, fn, 'non-directive-replaced-passed' if ok else 'non-directive-replaced-taken-for-directive', d), ok,
+                   '%s %s: `# %s` whose `#` begins a line but is the result of macro replacement (`#define HASH #` / `HASH %s`); the dispatcher does not take it for a '
+                   'directive (C11 6.10.3.4p3), so the skipper and the dispatcher disagree about the nesting' % (fn, says.get(got, got[4:] if got.startswith('odd:') else got), d, d),
+                   where=where, facts={'behaviours': sorted(cls)})
+    fn = 'detect_include_guard'
+    where = '%s:%d' % (U, u.fn(fn).line)
+    for d in COND:
+        try:
+            cls = _guard_class(P, u, T, d, 'replaced')
+        except Unsupported as e:
+            rep.undecided('R10.15', '%s:%s:replaced/%s' % (U, fn, d), 'cannot interpret %s: %s' % (fn, e))
+            continue
+        if not cls:
+            rep.undecided('R10.15', '%s:%s:replaced/%s' % (U, fn, d), '%s has no path the analysis can follow' % fn)
+            continue
+        ok = cls <= {'pass', 'reject'}
+        got = sorted(cls - {'pass', 'reject'})[0] if not ok else ''
+        rep.ob('R10.15', '%s:%s:%s/%s' % (U, fn, 'non-directive-replaced-passed' if ok else 'non-directive-replaced-taken-for-directive', d), ok,
+               'the include-guard recogniser acts on `# %s` whose `#` is the result of macro replacement as on a directive (%s); the dispatcher passes that line as text '
+               '(C11 6.10.3.4p3), so the recogniser and the dispatcher disagree about where the guarded region ends' % (d, got), where=where, facts={'behaviours': sorted(cls)})
 
 
 # ------------------------------------------------------------------------------------------------ R10.9
